@@ -209,7 +209,7 @@ func runC10Endpoints(sh *core.Shard, a props.Args) bool {
 	complete := true
 	// ---- proxy port
 	for _, cs := range c10ClaimSets {
-		tok := hsToken(rg.key, cs.List, time.Hour)
+		tok := hsToken(rg.key, cs.List, 24*time.Hour)
 		for _, via := range []string{"local", "forwarded"} {
 			for _, naming := range []string{"host", "header", "conflict", "tcp", "tcp-conflict"} {
 				for _, target := range c10Endpoints {
@@ -284,7 +284,7 @@ func runC10Endpoints(sh *core.Shard, a props.Args) bool {
 	// ---- upstream port: listen on E with claims C
 	n0 := rg.nodes[0]
 	for _, cs := range c10ClaimSets {
-		tok := hsToken(rg.key, cs.List, time.Hour)
+		tok := hsToken(rg.key, cs.List, 24*time.Hour)
 		for _, target := range append([]string{"fresh", "a.", "a*"}, c10Endpoints...) {
 			base := copyEps(n0.Cluster().LocalNode().Endpoints)
 			status, closeFn, err := upstreamHandshake(n0, target, [][2]string{{"Authorization", "Bearer " + tok}}, func() bool {
@@ -403,7 +403,7 @@ func runC10Tenants(sh *core.Shard) bool {
 			}
 			signers := map[string][]byte{"default-key": defKey, "t1": tenantKeys["t1"], "t2": tenantKeys["t2"], "t3": tenantKeys["t3"], "unknown-key": []byte("nobody-knows-this-key-0123456789")}
 			for signer, key := range signers {
-				tok := sign("HS256", key, claimOpts{Exp: time.Hour})
+				tok := sign("HS256", key, claimOpts{Exp: 24 * time.Hour})
 				for _, hdr := range []string{"", "t1", "t2", "t3", "unknown", "T1", "default"} {
 					var hs [][2]string
 					hs = append(hs, [2]string{"Authorization", "Bearer " + tok})
